@@ -130,6 +130,31 @@ def check(col: Collector, tier: str):
     documented = [d for d in documented if d != "Electrons" or True]
     for d in sorted(set(documented)):
         col.add("C06.R2", "README.The Event", f"documented-collection:{d}", d in tnames, f"README lists `{d}` as event collection; table has {tnames}", "README.md")
+    # container classes: pointer depths forwarded to the same-named parameters, per-backend defaults, element vs container not swapped
+    base_cc = repo.find_class("event_collection_collection_container")
+    bi = base_cc.methods["__init__"]
+    sup = [c for c in ast.walk(bi.node) if isinstance(c, ast.Call) and src(c.func) == "super().__init__"]
+    ok = len(sup) == 1 and src(sup[0].args[0]).replace(" ", "") == "ctyp.terminal(element_name,p_depth=p_depth_element)" and \
+        src(kwarg(sup[0], "array_type")) == "type_name" and src(kwarg(sup[0], "p_depth")) == "p_depth_type"
+    col.add("C06.R2", "event_collection_collection_container.__init__", "element-and-container-depths-not-swapped", ok,
+            "the element terminal takes p_depth_element, the container takes type_name and p_depth_type", bi.loc)
+    base_c = repo.find_class("event_collection_container").methods["__init__"]
+    sup = [c for c in ast.walk(base_c.node) if isinstance(c, ast.Call) and src(c.func) == "super().__init__"]
+    ok = len(sup) == 1 and src(sup[0].args[0]) == "type_name" and src(kwarg(sup[0], "p_depth")) == "p_depth"
+    col.add("C06.R2", "event_collection_container.__init__", "depth-forwarded", ok, "", base_c.loc)
+    want_defaults = {"atlas_xaod_event_collection_collection": {"p_depth_type": 1, "p_depth_element": 1}, "atlas_xaod_event_collection_container": {"p_depth": 1},
+                     "cms_aod_event_collection_collection": {"p_depth_type": 1, "p_depth_element": 0}, "cms_miniaod_event_collection_collection": {"p_depth_type": 1, "p_depth_element": 0}}
+    for cname, dflt in want_defaults.items():
+        c = repo.find_class(cname)
+        ini = c.methods["__init__"]
+        a = ini.node.args
+        params = [x.arg for x in a.args]
+        dvals = dict(zip(params[len(params) - len(a.defaults):], [getattr(d, "value", None) for d in a.defaults]))
+        sup = [k for k in ast.walk(ini.node) if isinstance(k, ast.Call) and src(k.func) == "super().__init__"]
+        fw = len(sup) == 1 and all(k.arg is None or src(k.value) == k.arg for k in sup[0].keywords) and \
+            [src(x) for x in sup[0].args] == params[1:1 + len(sup[0].args)]
+        col.add("C06.R2", f"{cname}.__init__", "defaults-and-same-name-forwarding", fw and all(dvals.get(k) == v for k, v in dflt.items()),
+                f"pointer-depth defaults {dvals} (expected {dflt}); every argument must be forwarded to the same-named parameter", ini.loc)
     # collection vs singleton decides the representation
     lam = [n for n in walk_no_nested(fn) if isinstance(n, ast.If) and "issubclass" in src(n.test)]
     ok = len(lam) == 1 and "event_collection_collection_container" in src(lam[0].test) and "md.container_type" in src(lam[0].test) \
